@@ -100,6 +100,9 @@ func (t *textScannerLexer) Next() (Token, error) {
 	typ := t.scanner.Scan()
 	text := t.scanner.TokenText()
 	pos := Position(t.scanner.Position)
+	if typ == scanner.EOF && !t.scanner.Position.IsValid() {
+		pos = Position(t.scanner.Pos()) // Empty input: nothing was scanned, so there is no token position.
+	}
 	pos.Filename = t.filename
 	if t.err != nil {
 		return Token{}, t.err
